@@ -7,6 +7,7 @@
                 |mean_r c_r| inside the roll-off class, max_r |c_r - G| <= 2^(1-bits) over the pass-band
   exploration   sine fits end to end for what rows cannot reach (irrational ratios, rounding noise under a full-scale
                 tone, engines, channels, integer / float32 formats against the double run)
+  cases         one member of every (plan class, knob) pair of the covering pool (checks/_signal.py cover)
   verdict       a frequency where an inequality fails is the failing tone: it is re-run end to end and reported.
 """
 import math
@@ -297,7 +298,7 @@ def job_format(args):
     c, it, ot, seed = args
     try:
         info, _ = S.run(c)
-        if "error" in info or not info.get("engine", "").startswith("cr") or S.bits_of(info) < 15 or S.f1_exact(info):
+        if "error" in info or not info.get("engine", "").startswith("cr") or S.bits_of(info) < 15 or S.f1_known(info):
             return {"cfg": c, "label": S.cfg_label(c), "skipped": "n/a"}
         rg = np.random.default_rng(seed)
         ratio = float(c["ir"]) / float(c["orr"])
